@@ -23,7 +23,10 @@ FMT_NAMES = ['bmc', 'prebmc', 'default']
 COMMENTS = ['# comment 12', '// 00 11 22', '; AB', '', '   ', '\t',
             # lines that start like data (hex digits) but break the line format further on: still comments
             'Date: 2024-01-01', 'Address  Data', 'Begin of dump', '12:30:45 start of dump', 'Feb 12 10:11:12 dump taken',
-            'FACE:  BEEFCAFE-- drawer dump --', 'DEADBEEF', '00000000     CAFEBABE--comment', 'ab-cd', 'C0 FF EE!']
+            'FACE:  BEEFCAFE-- drawer dump --', 'DEADBEEF', '00000000     CAFEBABE--comment', 'ab-cd', 'C0 FF EE!',
+            # ... also when the break comes after a blank where a digit belongs (what follows padding must be padding)
+            'Be  careful: partial dump', '10  lines follow', 'Ad  hoc dump taken at night', '0000:  be careful, partial dump',
+            '00000000     be careful, partial dump', '0010:  BEEF     cafe', '00000010     BEEF      cafe']
 
 
 def bounds(tier):
